@@ -88,7 +88,23 @@ def evolve_for_history(doc):
             names[base]["properties"].append(prop)
     # enumerations: the first closed one that is referenced becomes open, the first open one becomes closed
     flipped = {"open": False, "close": False}
+    referenced = set()
+
+    def _walk(t):
+        if isinstance(t, dict):
+            if t.get("kind") == "reference":
+                referenced.add(t.get("name"))
+            for v in t.values():
+                _walk(v)
+        elif isinstance(t, list):
+            for v in t:
+                _walk(v)
+    for st in d["structures"]:
+        for p in st["properties"]:
+            _walk(p["type"])
     for e in d.get("enumerations", []):
+        if e["name"] not in referenced:
+            continue
         if not e.get("supportsCustomValues") and not flipped["open"] and e["type"]["name"] == "string":
             e["supportsCustomValues"] = True
             flipped["open"] = True
@@ -100,6 +116,9 @@ def evolve_for_history(doc):
     for i, st in enumerate(list(d["structures"])):
         if i % 3 == 0 and not any(p["name"] == "verifHist" for p in st["properties"]):
             st["properties"].append({"name": "verifHist", "type": {"kind": "base", "name": "string"}, "optional": True})
+        if i % 5 == 1 and st["name"] not in ("LSPObject",):
+            # ... and some gain a REQUIRED property (anything resolved against the old declaration is now invalid)
+            st["properties"].append({"name": "verifReq", "type": {"kind": "base", "name": "boolean"}})
     d["structures"].append({"name": "VerifHistoryMixin", "properties": [{"name": "verifMixed", "type": {"kind": "base", "name": "string"}, "optional": True}]})
     for st in d["structures"]:
         if st["properties"] and st["name"] != "VerifHistoryMixin" and st["name"] not in ("LSPObject",):
